@@ -57,7 +57,7 @@ Env ==
        /\ \E cls \in {"BadNameAPIError", "InvalidEncryptionKeyAPIError", "HandshakeAPIError"} : s' = EnvHandshake(s, cls) /\ H(<<"handshake", cls>>)
   \/ CanReceive(s) /\ Use(FALSE) /\ \E ms \in Chunks : s' = EnvChunk(s, ms) /\ HK(<<"chunk", ms>>) /\ ka' = KAChunk(ms)
   \/ s.tr = "open" /\ ~s.cm /\ Use(TRUE) /\ s' = EnvEof(s) /\ H(<<"eof">>)
-  \/ s.tr = "open" /\ ~s.cm /\ Use(TRUE) /\ s' = EnvReset(s) /\ H(<<"reset">>)
+  \/ s.tr = "open" /\ ~s.cm /\ Use(TRUE) /\ \E f \in {"reset", "timedout", "oserr"} : s' = EnvReset(s, f) /\ H(<<"reset", f>>)
   \/ s.tr = "open" /\ ~s.cm /\ ~s.cfg.noise /\ Use(TRUE)
        /\ \E cls \in {"ProtocolAPIError", "RequiresEncryptionAPIError"} : s' = EnvJunk(s, cls) /\ H(<<"junk", cls>>)
   \/ s.di.out = "idle" /\ s.st.out # "idle" /\ Use(TRUE) /\ s' = UserDisconnect(s) /\ H(<<"disconnect">>)
